@@ -214,8 +214,12 @@ class Printer(BasePrinter):
 
         with self.indented():
             for op in block.ops:
-                if not print_block_terminator and op.has_trait(
-                    IsTerminator, value_if_unregistered=False
+                # A terminator that carries attributes is printed even where it may be
+                # elided: parsing the elided form would recreate it without them.
+                if (
+                    not print_block_terminator
+                    and op.has_trait(IsTerminator, value_if_unregistered=False)
+                    and not op.attributes
                 ):
                     continue
                 self._print_new_line()
